@@ -6,6 +6,7 @@
  N2 DELETE-BOTH         delete_by_row_id removes the map entry and marks the node deleted on every success path where the row
                         was found.
  N3 OPEN-REBUILDS       opening an index file repopulates row_id_map (insert inside a loop over stored nodes).
+ N3b REBUILD-ALL-SLOTS the rebuild loop's upper bound is the page's slot count, not a count of live nodes.
  N4 DELETE-COUNTS       delete() marks the node, queues it for vacuum and decrements the node count together.
 Ranking, recall, quantisation error and entry-point replacement are NOT decided (the entry-point observation of the design could
 not be demonstrated and is not armed).
@@ -60,6 +61,22 @@ def run(ctx):
         if any(any(c.bb in body for _, body in g.loops()) for c in ins):
             inl = True
     ctx.ob("N3.OPEN-REBUILDS", "open", inl, "row_id_map is rebuilt in a loop over stored nodes" if inl else "open does not rebuild row_id_map", o.loc())
+    # N3b: the rebuild walks the whole slot directory.  Tombstoned slots keep their index, so a bound taken from a count of live
+    # nodes stops short of the most recently inserted rows after any deletion.
+    rb = m.fn(H + "rebuild_row_id_map")
+    from paths import source_call
+    ranges = []
+    for b in rb.blocks:
+        for st in b["s"]:
+            if st[0] == "=" and st[2][0] == "agg" and st[2][1] == "adt" and st[2][2] in ("std::ops::Range", "std::ops::RangeInclusive") and len(st[2][4]) == 2:
+                q = operand_place(st[2][4][1])
+                src = source_call(rb, q[0]) if q is not None and not q[1] else None
+                ranges.append(src.name.rsplit("::", 1)[-1] if src is not None else "<non-call>")
+    slot_loops = [r for r in ranges if r not in ("<non-call>",)]
+    okb = bool(slot_loops) and all(r == "slot_count" for r in slot_loops)
+    ctx.ob("N3b.REBUILD-ALL-SLOTS", "rebuild_row_id_map", okb, "the per-page loop runs to slot_count()" if okb else
+           "the rebuild loop is bounded by %s instead of the slot count: rows in slots past that bound are missing from row_id_map after "
+           "reopen, cannot be deleted, and an update leaves two live nodes for one row" % slot_loops, rb.loc())
     de = m.fn(H + "delete")
     need = ("mark_deleted", "enqueue", "decrement_node_count")
     have = {c.name.rsplit("::", 1)[-1] for c in de.calls}
